@@ -310,4 +310,6 @@ VARIANTS = [
     V('C20', 'B', 'package directories skipped before the config is tried', PRJ, "    for dir in chain([check], check.parents):\n        try:",
       "    for dir in chain([check], check.parents):\n        if dir.name == '__pycache__':\n            continue\n        try:", 'C20.e'),
     V('C20', 'S', 'loaded project returned through a local', PRJ, "            return Project.load(dir)\n        except (FileNotFoundError", "            loaded = Project.load(dir)\n            return loaded\n        except (FileNotFoundError"),
+    V('C04', 'B', 'dict keys not de-duplicated', 'jedi/api/strings.py', "sorted(set(_get_python_keys(dicts)), key=lambda x: repr(x))", "sorted(_get_python_keys(dicts), key=lambda x: repr(x))", 'C04.i'),
+    V('C04', 'S', 'dict keys de-duplicated through a local', 'jedi/api/strings.py', "    for dict_key in sorted(set(_get_python_keys(dicts)), key=lambda x: repr(x)):", "    keys = set(_get_python_keys(dicts))\n    for dict_key in sorted(keys, key=lambda x: repr(x)):"),
 ]
